@@ -92,6 +92,33 @@ def run(chk, repo):
                 chk.decide(not s.escapes, "E3", W(q), describe(s), why="escapes a generator frame", node=s.node)
     chk.floor("E3", frames, 12, "methods of Stream and StreamTeeHub scanned")
 
+    # ---------------------------------------------------------------- init
+    chk.rule("C03.init", "Stream(*dargs): none -> TypeError; one iterable -> iter(it), one non-iterable -> endless repeat; "
+                         "several: all iterable -> chain in order, none iterable -> endless cycle, mixed -> TypeError")
+    ini = repo.find(LS, "Stream.__init__")
+    ib = docstring_free(ini.body)
+    ok = len(ib) == 1 and isinstance(ib[0], ast.If) and unparse(ib[0].test) == "len(dargs) == 0" \
+        and isinstance(ib[0].body[0], ast.Raise) and "TypeError" in unparse(ib[0].body[0])
+    one = ib[0].orelse[0] if ok and ib[0].orelse else None
+    ok1 = one is not None and isinstance(one, ast.If) and unparse(one.test) == "len(dargs) == 1" \
+        and unparse(one.body[0]) == "if isinstance(dargs[0], Iterable):\n    self._data = iter(dargs[0])\nelse:\n    self._data = it.repeat(dargs[0])"
+    chk.decide(ok and ok1, "C03.init", W("Stream.__init__"), "no argument -> TypeError; one argument -> iter / repeat",
+               why="a single iterable is wrapped as it is, a single non-iterable repeats endlessly", node=ini)
+    many = one.orelse if one is not None else []
+    okm = len(many) == 1 and isinstance(many[0], ast.If) \
+        and unparse(many[0].test) == "all((isinstance(arg, Iterable) for arg in dargs))" \
+        and unparse(many[0].body[0]) == "self._data = it.chain(*dargs)" and len(many[0].orelse) == 1 \
+        and isinstance(many[0].orelse[0], ast.If) \
+        and unparse(many[0].orelse[0].test) == "not any((isinstance(arg, Iterable) for arg in dargs))" \
+        and unparse(many[0].orelse[0].body[0]) == "self._data = it.cycle(dargs)" \
+        and isinstance(many[0].orelse[0].orelse[0], ast.Raise) and "TypeError" in unparse(many[0].orelse[0].orelse[0])
+    chk.decide(okm, "C03.init", W("Stream.__init__"), "several arguments: all iterable -> chain(*dargs); none -> cycle(dargs); "
+               "mixed -> TypeError", why="the periodic / chained constructors are the streams the model is built from", node=ini)
+    itn = repo.find(LS, "Stream.__iter__")
+    chk.decide(unparse(docstring_free(itn.body)[-1]) == "return self._data", "C03.init", W("Stream.__iter__"),
+               "iteration hands out the single underlying iterator", why="a Stream is consumed through its one iterator",
+               node=itn)
+
     # ---------------------------------------------------------------- take
     chk.rule("C03.take", "Stream.take: the 'n is None' arm returns next(self._data) in the plain frame (so "
                          "StopIteration reaches the caller as documented); the +inf arm hands the whole iterator "
